@@ -32,6 +32,8 @@ QStep(st, e, t) ==
       [] e.e = "hb_start" -> Fin(st, e, HbStart(st, e.ms))
       [] e.e = "hb_stop" -> Fin(st, e, HbStop(st))
       [] e.e = "write1017" -> Fin(st, e, Write1017(st, e.ms))
+      [] e.e = "write1017_bad" -> IF ~e.refused THEN Bad(st, "a download of the wrong length to the heartbeat time was not refused")
+                                  ELSE Fin(st, e, st)
       [] e.e = "nmt" -> Fin(st, e, NmtTo(st, e.state, e.api))
       [] e.e = "ng_start" -> Fin(st, e, NgStart(st, e.period_us))
       [] e.e = "ng_stop" -> Fin(st, e, NgStop(st))
